@@ -241,6 +241,19 @@ tl::expected<std::string, errors> canonicalize_protocol(
     input.remove_suffix(1);
   }
 
+  // The Standard runs the basic URL parser on the value followed by
+  // "://dummy.test"; the parser removes all ASCII tab or newline from its
+  // input before it looks at the scheme.
+  std::string without_tab_or_newline;
+  if (input.find_first_of("\t\n\r") != std::string_view::npos) {
+    without_tab_or_newline = input;
+    helpers::remove_ascii_tab_or_newline(without_tab_or_newline);
+    input = without_tab_or_newline;
+    if (input.empty()) {
+      return tl::unexpected(errors::type_error);
+    }
+  }
+
   // Fast path: special schemes are already canonical
   if (scheme::is_special(input)) {
     return std::string(input);
